@@ -388,7 +388,8 @@ pub fn run_case(c: &WtCase, stride: usize, phase: usize, st: &mut Stats) -> Vec<
     let shifted: Vec<PrintedModule>;
     let prog2: Program;
     if matches!(&r, Ok(v) if v.is_empty()) && phase % 4 >= 2 && !c.printed[0].text.starts_with(OVERFLOWING_LITERAL) {
-        const LINE: &str = "// edited\n";
+        // (sent as two ranged changes of one notification: the comment line at 0:0, then two blanks at 1:0 of the result)
+        const LINE: &str = "// edited\n  ";
         let alias = if phase % 8 >= 6 { alias_edit(c, phase) } else { None };
         let (em, changes): (usize, Vec<(Option<[[u32; 2]; 2]>, String)>) = match alias {
             Some((em, p2, pm2)) => {
@@ -424,7 +425,7 @@ pub fn run_case(c: &WtCase, stride: usize, phase: usize, st: &mut Stats) -> Vec<
                     })
                     .collect();
                 prog2 = c.prog.clone();
-                (em, vec![(Some([[0, 0], [0, 0]]), LINE.to_owned())])
+                (em, vec![(Some([[0, 0], [0, 0]]), "// edited\n".to_owned()), (Some([[1, 0], [1, 0]]), "  ".to_owned())])
             }
         };
         let uri = file_uri(&dir.path.join(&c.printed[em].file));
